@@ -167,40 +167,60 @@ inductive Slice (V : Type) where
   | panic                                   -- `combine_ranges`: assert!(end >= start)
   | blocks (first : Nat) (bs : List (Block V))
 
+/-- number of addressable blocks (`V3Empty`: the one pseudo block) -/
+def Dict.nb {V} (d : Dict V) : Nat := if d.single then 1 else d.blocks.length
+
+/-- the addressable blocks: `blockList[i]? = blockAt i` -/
+def Dict.blockList {V} (d : Dict V) : List (Block V) :=
+  if d.single then [d.blocks.headD ⟨[], 0, []⟩] else d.blocks
+
+/-- `first_block_id` of file_slice_for_range: `none` = `return FileSlice::empty()` (lower bound key
+above every separator), `some none` = unbounded -/
+def Dict.firstBlock {V} (d : Dict V) (lo : Bound) : Option (Option Nat) :=
+  match lo.key? with
+  | none => some none
+  | some k =>
+    match d.locateKey k with
+    | none => none
+    | some f => if (d.blockAt f).isSome then some (some f) else none
+
+/-- `last_block_id` before the limit: block of the upper bound key, `none` = unbounded or key
+above every separator -/
+def Dict.lastKeyBlock {V} (d : Dict V) (hi : Bound) : Option Nat := hi.key?.bind d.locateKey
+
+/-- `second_block_id`: the block after the first block (block 0 for an unbounded lower bound) -/
+def secondOf (firstId : Option Nat) : Nat := match firstId with | some f => f + 1 | none => 0
+
+/-- `last_block_id` after the limit: at most the block holding the ordinal
+`first_ordinal(block after the first block) + limit` -/
+def Dict.limitBlock {V} (d : Dict V) (firstId lastId : Option Nat) (limit : Option Nat) : Option Nat :=
+  match limit with
+  | none => lastId
+  | some l =>
+    match d.blockAt (secondOf firstId) with
+    | none => lastId
+    | some b =>
+      match lastId with
+      | some x => some (min x (d.locateOrd (b.firstOrd + l)))
+      | none => some (d.locateOrd (b.firstOrd + l))
+
+/-- index of the last block loaded: `last_block_id.and_then(get_block)`, unbounded otherwise -/
+def Dict.lastIncl {V} (d : Dict V) (lastId : Option Nat) : Nat :=
+  match lastId with
+  | some x => if x < d.nb then x else d.nb - 1
+  | none => d.nb - 1
+
 /-- mirrors: Dictionary::file_slice_for_range — block ids `[first ..= last]` of the file slice
 that is loaded, `limit` moving `last` down -/
 def Dict.sliceFor {V} (d : Dict V) (lo hi : Bound) (limit : Option Nat) : Slice V :=
-  let nb := if d.single then 1 else d.blocks.length
-  let blockList : List (Block V) := if d.single then [d.blocks.headD ⟨[], 0, []⟩] else d.blocks
-  -- first block
-  match (match lo.key? with
-         | some k => (match d.locateKey k with | none => none | some f => some (some f))
-         | none => some none) with
+  match d.firstBlock lo with
   | none => .blocks 0 []                              -- FileSlice::empty()
   | some firstId =>
-    let lastId : Option Nat := match hi.key? with | some k => d.locateKey k | none => none
-    match (match firstId with
-           | some f => (match d.blockAt f with | none => none | some _ => some f)
-           | none => some 0) with
-    | none => .blocks 0 []
-    | some f =>
-      let lastId : Option Nat :=
-        match limit with
-        | some l =>
-          let second := match firstId with | some f => f + 1 | none => 0
-          (match d.blockAt second with
-           | some b =>
-             let lim := d.locateOrd (b.firstOrd + l)
-             (match lastId with | some x => some (min x lim) | none => some lim)
-           | none => lastId)
-        | none => lastId
-      -- end bound: `last.and_then(get_block)`, unbounded otherwise
-      let lastIncl : Nat :=
-        match lastId with
-        | some x => if x < nb then x else nb - 1
-        | none => nb - 1
-      if f > lastIncl + 1 then .panic
-      else .blocks f ((blockList.drop f).take (lastIncl + 1 - f))
+    let f := firstId.getD 0
+    let last := d.lastIncl (d.limitBlock firstId (d.lastKeyBlock hi) limit)
+    -- without the guard `combine_ranges` asserts `end >= start`; with it (first > last) the slice is empty
+    if f > last + 1 then (if Gen.RANGE_INVERTED_GUARD = 1 then .blocks f [] else .panic)
+    else .blocks f ((d.blockList.drop f).take (last + 1 - f))
 
 /-- mirrors: Streamer::advance with `AlwaysMatch`: skip until the lower bound matches (checked
 only until its first success), stop at the first key failing the upper bound. Output carries the
@@ -281,5 +301,46 @@ def firstRejected (blockLen : Nat) : WState → List Key → Nat → Option Nat
     | some s' => firstRejected blockLen s' ks (i + 1)
 
 def writerAccepts (blockLen : Nat) (ks : List Key) : Bool := (firstRejected blockLen {} ks 0).isNone
+
+end TantivyModel.SSTable
+
+namespace TantivyModel.SSTable
+
+/-- mirrors: SSTableIndex::get_and_locate_with_ord + the `current_block_end_bound` computation of
+Dictionary::sorted_ords_to_term_cb: the block holding `ord` and the first ordinal of the next
+block (`u64::MAX` if there is none) -/
+def Dict.openForOrd {V} (d : Dict V) (ord : Nat) : Block V × Nat :=
+  let i := d.locateOrd ord
+  ((d.blockAt i).getD ⟨[], 0, []⟩,
+   match d.blockAt (i + 1) with | some b => b.firstOrd | none => U64_MAX)
+
+/-- mirrors: the loop of Dictionary::sorted_ords_to_term_cb after the first ordinal: the same
+ordinal again re-emits the current key; an ordinal at or past the end bound re-opens a block;
+a block that runs out ends the call with `false` -/
+def Dict.sortedOrdsGo {V} (d : Dict V) : Block V → Nat → Nat → Key → List Nat → List Key × Bool
+  | _, _, _, _, [] => ([], true)
+  | b, endBound, prevOrd, cur, o :: rest =>
+    if o = prevOrd then
+      let r := d.sortedOrdsGo b endBound prevOrd cur rest
+      (cur :: r.1, r.2)
+    else
+      let be := if o ≥ endBound then d.openForOrd o else (b, endBound)
+      match be.1.entries[o - be.1.firstOrd]? with
+      | none => ([], false)
+      | some e =>
+        let r := d.sortedOrdsGo be.1 be.2 o e.1 rest
+        (e.1 :: r.1, r.2)
+
+/-- mirrors: Dictionary::sorted_ords_to_term_cb (requires `ords` sorted): the keys passed to the
+callback and the returned flag -/
+def Dict.sortedOrdsToTerm {V} (d : Dict V) : List Nat → List Key × Bool
+  | [] => ([], true)
+  | o :: rest =>
+    let be := d.openForOrd o
+    match be.1.entries[o - be.1.firstOrd]? with
+    | none => ([], false)
+    | some e =>
+      let r := d.sortedOrdsGo be.1 be.2 o e.1 rest
+      (e.1 :: r.1, r.2)
 
 end TantivyModel.SSTable
